@@ -378,8 +378,15 @@ func (runInfo *runInfoStruct) makeCallArgs(rt reflect.Type, isRunVMFunction bool
 		// for runVMFunction the first arg is context so does not count against number of SubExprs
 		numIn--
 	}
+	// number of expressions
+	numExprs := len(callExpr.SubExprs)
 	if numIn < 1 {
 		// no arguments needed
+		if numExprs > 0 && !callExpr.VarArg {
+			runInfo.err = newStringError(callExpr, fmt.Sprintf("function wants %v arguments but received %v", numIn, numExprs))
+			runInfo.rv = nilValue
+			return nil, false
+		}
 		if isRunVMFunction {
 			// for runVMFunction first arg is always context
 			return []reflect.Value{reflect.ValueOf(runInfo.ctx)}, false
@@ -387,8 +394,6 @@ func (runInfo *runInfoStruct) makeCallArgs(rt reflect.Type, isRunVMFunction bool
 		return []reflect.Value{}, false
 	}
 
-	// number of expressions
-	numExprs := len(callExpr.SubExprs)
 	// checks to short circuit wrong number of arguments
 	if (!rt.IsVariadic() && !callExpr.VarArg && numIn != numExprs) ||
 		(rt.IsVariadic() && callExpr.VarArg && (numIn < numExprs || numIn > numExprs+1)) ||
